@@ -27,7 +27,7 @@ func runC12(r *vf.Run) {
 	r.Rule("one evaluation = one query text run through database/sql on a file DSN with one option combination; Columns, ColumnTypes, row count, row order, values (scanned into `any`, so NULLs and mistyped cells are visible) and Err() are compared with the table derived from the row oracle; " +
 		"queries the library rejects (unknown column, syntax error) must fail; distinct_nontrivial = distinct (dataset, query text, arguments) triples")
 	r.Assume("column names are identifiers of the query language (others cannot be named in the text language)")
-	n := r.Pick(50, 250)
+	n := r.Pick(50, 1500)
 	var ids []string
 	for i := 0; i < n; i++ {
 		ids = append(ids, fmt.Sprintf("ds%03d", i))
